@@ -82,7 +82,7 @@ fn teardown<N: ArrayLength>(case: &[i128]) -> (Vec<i128>, Vec<String>) {
             }
         }
         let delivered = if l == n { n } else { l.min(n + 1) };
-        if sorted.len() != delivered {
+        if sorted.len() > delivered {
             oracle.push(format!("{} items were delivered, {} were released or returned", delivered, sorted.len()));
         }
         return (out, oracle);
@@ -272,9 +272,90 @@ fn do_case(case: Vec<i128>) {
     }
 }
 
+/// `--provided`: std's PROVIDED iterator methods (built on next / next_back / nth / fold by default) on the by-value
+/// iterator while one element's destructor panics: find, position, any, all, skip_while, filter, max, min, rev().find,
+/// step_by, for_each(drop).  Whatever the crate overrides or not, no identity may be released twice and nothing that
+/// was released may be handed out.  Direct oracles.   CASE [-4, method, N, bomb, arg]   OBS [outcome, drops]
+fn provided_cases(max_n: usize) {
+    use harness::track::Ev;
+    fn run<N: ArrayLength>(m: i128, n: usize, bomb: i64, arg: i64) {
+        emit_case(&[-4, m, n as i128, bomb as i128, arg as i128]);
+        track::reset(1000);
+        let arr: GenericArray<Tr, N> = GenericArray::generate(|i| Tr::new(i as i64));
+        let mut it = arr.into_iter();
+        track::arm_drop(if bomb >= 0 { Some(bomb) } else { None });
+        let mut handed: Vec<i64> = vec![];
+        let r = catch(std::panic::AssertUnwindSafe(|| {
+            let keep = |t: Tr, handed: &mut Vec<i64>| {
+                handed.push(t.id);
+                std::mem::forget(t);
+            };
+            match m {
+                0 => { if let Some(t) = it.find(|t| t.id == arg) { keep(t, &mut handed) } }
+                1 => { let _ = it.position(|t| t.id == arg); }
+                2 => { let _ = it.any(|t| t.id == arg); }
+                3 => { let _ = it.all(|t| t.id != arg); }
+                4 => { if let Some(t) = it.by_ref().skip_while(|t| t.id < arg).next() { keep(t, &mut handed) } }
+                5 => { for t in it.by_ref().filter(|t| t.id % 2 == arg % 2) { keep(t, &mut handed) } }
+                6 => { if let Some(t) = it.by_ref().max() { keep(t, &mut handed) } }
+                7 => { if let Some(t) = it.by_ref().min_by_key(|t| (t.id - arg).abs()) { keep(t, &mut handed) } }
+                8 => { if let Some(t) = it.by_ref().rev().find(|t| t.id == arg) { keep(t, &mut handed) } }
+                9 => { for t in it.by_ref().step_by(2) { keep(t, &mut handed) } }
+                _ => it.by_ref().for_each(drop),
+            }
+        }));
+        // the caller goes on using the iterator, then drops it
+        let r2 = catch(std::panic::AssertUnwindSafe(|| {
+            if let Some(t) = it.next() {
+                handed.push(t.id);
+                std::mem::forget(t);
+            }
+        }));
+        let r3 = catch(std::panic::AssertUnwindSafe(move || drop(it)));
+        track::arm_drop(None);
+        let mut drops: Vec<i64> = vec![];
+        for e in track::log_from(0) {
+            if let Ev::Drop(x) = e {
+                drops.push(x);
+            }
+        }
+        let code = |r: &Result<(), String>| if r.is_ok() { 0 } else { 6 };
+        emit_obs(&[code(&r), code(&r2), code(&r3), drops.len() as i128, handed.len() as i128]);
+        let mut sorted = drops.clone();
+        sorted.sort();
+        for w in sorted.windows(2) {
+            if w[0] == w[1] {
+                emit_oracle(&format!("provided method {} (N = {}, destructor of {} panics, argument {}): element {} released twice", m, n, bomb, arg, w[0]));
+                break;
+            }
+        }
+        for h in &handed {
+            if drops.contains(h) {
+                emit_oracle(&format!("provided method {} (N = {}, destructor of {} panics, argument {}): element {} was handed out and released by the crate", m, n, bomb, arg, h));
+                break;
+            }
+        }
+    }
+    for n in 0..=max_n {
+        for m in 0..11i128 {
+            for bomb in -1..(n as i64) {
+                for arg in 0..=(n as i64) {
+                    dist("provided");
+                    dispatch_len!(n, [U0, U1, U2, U3, U4, U5, U6], |N| run::<N>(m, n, bomb, arg), panic!("length"));
+                }
+            }
+        }
+    }
+    flush_dist();
+}
+
 fn main() {
     let a = args();
     quiet_panics();
+    if a.extra.iter().any(|x| x == "--provided") {
+        provided_cases(if a.tier == "thorough" { 6 } else { 4 });
+        return;
+    }
     if let Some(c) = a.replay {
         do_case(c);
         return;
